@@ -65,6 +65,10 @@ func runC03(c *core.Case) {
 	r := c.R
 	var ids []ref.ID
 	var H, V int64
+	if d := c03Directed(c.Tier); c.I >= d && hammerWanted(c, d) {
+		c03Hammer(c, d)
+		return
+	}
 	if d := c03Directed(c.Tier); c.I < d {
 		small := c03SmallIDs()
 		ids = []ref.ID{small[c.I/36]}
@@ -128,6 +132,7 @@ func runC03(c *core.Case) {
 		ids[n-2] = ids[1]
 		H, V = z.H-int64(r.Intn(2)), z.V-int64(r.Intn(2))
 		c.Tag("very-long-list")
+		c.Procs()
 	}
 	in := ref.Exts(ids)
 	respelled := false
